@@ -125,10 +125,26 @@ def check(case, ctx):
         for n in range(1, nd + 1):
             for sub in itertools.permutations(m.dims, n):
                 for ins in [None] + list(range(0, nd - n + 1)):
-                    form = rng.choice(['tuple', 'list', 'set', 'var'])
+                    form = rng.choice(['tuple', 'list', 'set', 'var', 'positions', 'reverse', 'reverse-positions', 'reverse-mixed'])
+                    if form.startswith('reverse') and n == nd:
+                        form = 'tuple'
                     kw = {} if ins is None else {"insert": ins}
                     esub = list(sub)
-                    if form == 'set':
+                    if form == 'positions':
+                        # the dimensions to group designated by position
+                        arg = tuple(m.dims.index(d_) for d_ in sub)
+                        fn = lambda arg=arg, kw=kw: a.flatten(arg, **kw)
+                        ctx.outcomes['flatten-dims-by-position'] += 1
+                    elif form.startswith('reverse'):
+                        # reverse=True: the listed dimensions are the ones to keep, all the others are grouped (in the array's order)
+                        kept = [d_ for d_ in m.dims if d_ not in sub]
+                        rng.shuffle(kept)
+                        esub = [d_ for d_ in m.dims if d_ in sub]
+                        arg = tuple(m.dims.index(d_) if (form == 'reverse-positions' or (form == 'reverse-mixed' and i_ % 2 == 0)) else d_ for i_, d_ in enumerate(kept))
+                        kw = dict(kw, reverse=True)
+                        fn = lambda arg=arg, kw=kw: a.flatten(arg, **kw)
+                        ctx.outcomes['flatten-' + form] += 1
+                    elif form == 'set':
                         arg = set(sub)
                         esub = [d for d in m.dims if d in sub]
                         fn = lambda arg=arg, kw=kw: a.flatten(arg, **kw)
@@ -138,6 +154,8 @@ def check(case, ctx):
                         arg = tuple(sub) if form == 'tuple' else list(sub)
                         fn = lambda arg=arg, kw=kw: a.flatten(arg, **kw)
                     label = "a.flatten(%s %r, insert=%r)" % (form, list(sub), ins) + base
+                    if form in ('positions', 'reverse', 'reverse-positions', 'reverse-mixed'):
+                        label = "a.flatten(%r, %s)" % (arg, ", ".join("%s=%r" % kv for kv in sorted(kw.items()))) + base
                     pos_ = [m.dims.index(d_) for d_ in sub]
                     vclasses.add(('flatten', nd, n, 'inorder' if pos_ == sorted(pos_) else 'reordered',
                                   'contiguous' if max(pos_) - min(pos_) == n - 1 else 'gaps', ins, form, sp["regime"]))
